@@ -46,6 +46,9 @@ def check(run):
     R.rule('C04.masked', 'the stream\'s parser class rejects any frame with the mask bit before delegating', 3)
     wire(R)
     table(R)
+    from . import C01
+    with R.as_rule('C04.table'):
+        C01.conserve(R)
     order(R)
     opcodes(R)
     closecodes(R)
@@ -88,16 +91,18 @@ def _bits(e, names):
     return None
 
 
-def wire(R):
+def wire(R, RID='C04.wire'):
     g, rd, cons = _parse_env(R)
     f = R.func(PARSE)
     # the two header bytes: a tuple unpack from `yield self.read(2)`
     hdr = None
     for n in g.live_nodes():
         if n.kind == 'stmt' and isinstance(n.ast, ast.Assign) and isinstance(n.ast.targets[0], ast.Tuple) \
-                and isinstance(n.ast.value, ast.Yield) and isinstance(n.ast.value.value, ast.Call) \
+                and isinstance(n.ast.value, ast.Yield) and n.ast.value.value is not None \
                 and len(n.ast.targets[0].elts) == 2:
-            c = n.ast.value.value
+            c = rd.origin(n, n.ast.value.value)[0]
+            if not isinstance(c, ast.Call):
+                continue
             if any(t.kind == 'ctor' and t.cls == 'parser._ReadBytes' for t in R.types.call_targets(c, g.ctx)) \
                     and fold(R, c.args[0], g.ctx) == 2:
                 hdr = n
@@ -123,7 +128,7 @@ def wire(R):
                 s2, sh2, mk2 = bits
                 eff = mk2 if mk2 is not None else (0xff >> sh2)
                 ok = s2 == src and sh2 == sh and eff == width and rd.defs_at(on, s2) == {hdr}
-        R.ob('C04.wire', 'frame.%s is wire bit-field' % field, ok, detail, func=f, node=cons.ast,
+        R.ob(RID, 'frame.%s is wire bit-field' % field, ok, detail, func=f, node=cons.ast,
              construct='header field %s: %s' % (field, detail))
         if ok:
             R._c04_wire_fields.add(field)
@@ -135,7 +140,7 @@ def wire(R):
             if bits == (b2, 0, 127):
                 plen = (n, n.ast.targets[0].id)
     need(plen is not None, 'FrameParser.parse: 7-bit length extraction `byte2 & 0x7f` not found')
-    R.ob('C04.wire', '7-bit length field', True, '%s = %s' % (plen[1], U(plen[0].ast.value)), func=f, node=plen[0].ast)
+    R.ob(RID, '7-bit length field', True, '%s = %s' % (plen[1], U(plen[0].ast.value)), func=f, node=plen[0].ast)
     lv = plen[1]
     ext = []
     for n in g.live_nodes():
@@ -153,9 +158,17 @@ def wire(R):
         import struct as _s
         ok = sf is not None and sf[0] == 'unpack' and sf[1] in ('!H', '!Q') and cnt == _s.calcsize(sf[1]) \
             and lo == hi == {'!H': 126, '!Q': 127}[sf[1]]
-        R.ob('C04.wire', 'extended length form %s' % (sf[1] if sf else '?'), ok,
+        R.ob(RID, 'extended length form %s' % (sf[1] if sf else '?'), ok,
              'marker %s..%s reads %s bytes decoded with %s' % (lo, hi, cnt, sf), func=f, node=n.ast)
-    R.ob('C04.wire', 'both extended forms present', sorted((v[0] or ('', ''))[1] for v in forms.values()) == ['!H', '!Q'],
+        # the marker test must look at the 7-bit field, not at a length already decoded by another form
+        for (tn, lab) in g.edge_guards(n):
+            if tn.kind == 'test' and lv in {x.id for x in walk_no_nested(tn.ast) if isinstance(x, ast.Name)}:
+                okd = rd.defs_at(tn, lv) == {plen[0]}
+                R.ob(RID, 'marker test for %s reads the 7-bit field' % (sf[1] if sf else '?'), okd,
+                     'the test `%s` is evaluated on a length that may already have been replaced by an extended length '
+                     '(definitions reaching it: %s): a decoded length equal to the other marker is decoded twice' % (
+                         U(tn.ast), sorted(d.text()[:40] for d in rd.defs_at(tn, lv))), func=f, node=tn.ast)
+    R.ob(RID, 'both extended forms present', sorted((v[0] or ('', ''))[1] for v in forms.values()) == ['!H', '!Q'],
          'extended length forms: %s' % [v[0] for v in forms.values()], func=f, node=plen[0].ast,
          construct='extended length forms')
     R._c04 = {'g': g, 'rd': rd, 'cons': cons, 'lenvar': lv, 'lendefs': {plen[0]} | set(ext), 'hdr': hdr}
@@ -481,7 +494,8 @@ def closecodes(R):
     missing = sorted(must - inv)
     R.ob('C04.closecodes', 'reserved codes rejected', not missing, 'not rejected: %s' % missing[:8],
          func='websocket.WebSocket._on_close', node=None, construct='invalid_codes missing %s' % missing[:8])
-    valid = {1000, 1001, 1002, 1003, 1007, 1008, 1009, 1010, 1011} | set(range(3000, 5000))
+    # RFC 6455 7.4.1 codes plus the IANA-registered 1012 (Service Restart) and 1013 (Try Again Later); 3000-4999
+    valid = {1000, 1001, 1002, 1003, 1007, 1008, 1009, 1010, 1011, 1012, 1013} | set(range(3000, 5000))
     wrong = sorted(valid & inv)
     R.ob('C04.closecodes', 'valid codes accepted', not wrong, 'valid codes rejected: %s' % wrong[:8],
          func='websocket.WebSocket._on_close', node=None, construct='invalid_codes contains valid %s' % wrong[:8])
@@ -614,11 +628,24 @@ def rsvgate(R):
     sites = only_callers('stream.WebsocketStream.set_compression', ['websocket.WebSocket.process_extensions'])
     q = 'websocket.WebSocket.process_extensions'
     g = R.cfg(q)
+    rd = ReachingDefs(g)
     for (n, c) in calls_to(R, g, 'stream.WebsocketStream.set_compression'):
         lits = {(t, p) for (t, p, _) in guards_of(g, n)}
         ok = any(t.endswith("== 'permessage-deflate'") and p for (t, p) in lits)
         R.ob('C04.rsvgate', 'activation under the permessage-deflate token', ok,
              'set_compression reachable without the extension token test: %s' % sorted(lits), func=q, node=c)
+        # RSV1 tolerance is switched on only together with a usable Deflate object
+        a = c.args[0] if c.args else None
+        origins = rd.origins(n, a) if a is not None else []
+        okd = bool(origins) and all(isinstance(o, ast.Call) and R.types.resolves_to(o, g.ctx, 'compression.Deflate.from_options')
+                                    for (o, _) in origins)
+        R.ob('C04.rsvgate', 'compressed-frame parsing enabled only with a negotiated Deflate object', okd,
+             'set_compression() can be called with %s: enable_compression() then accepts RSV1 although no usable '
+             'extension was negotiated' % [U(o) for (o, _) in origins], func=q, node=c)
+    esc = R.exc.escapes(g.ctx)
+    R.ob('C04.rsvgate', 'unusable extension parameters reject the handshake', 'errors.CompressionParameterError' in esc,
+         'process_extensions swallows CompressionParameterError (escape set %s): the handshake is accepted with an '
+         'extension the client cannot honour' % sorted(esc), func=q, node=None, construct='process_extensions swallows parameter errors')
 
 
 # ------------------------------------------------------------------------------------------------ disc
